@@ -76,9 +76,9 @@ func subsets(pool []string, max int) [][]string {
 	return out
 }
 
-var c05Domains = []string{"a.test", "A.TEST", "b.test", "B.TEST", "sub.a.test", "c.test", ""}
-var c05ListPool = []string{"a.test", "B.Test", "sub.a.test"}
-var c05OriginPool = []string{"a.test", "*.test", "?.test", "A.TEST", "a.*", "*"}
+var c05Domains = []string{"a.test", "A.TEST", "b.test", "B.TEST", "sub.a.test", "c.test", "", "[IPv6:2001:DB8::1]", "[ipv6:2001:db8::1]", "[1.2.3.4]"}
+var c05ListPool = []string{"a.test", "B.Test", "sub.a.test", "[IPv6:2001:db8::1]"}
+var c05OriginPool = []string{"a.test", "*.test", "?.test", "A.TEST", "a.*", "*", "[IPv6:2001:db8:*]"}
 
 func c05Predicates(c *fw.Ctx, cfg c05Cfg) {
 	conf := cfg.load()
@@ -216,8 +216,8 @@ func c05Run(c *fw.Ctx) {
 	}
 	// (ii) session level
 	rcptOrders := [][]string{
-		{"u1@a.test", "u2@A.TEST", "u3@b.test", "u4@sub.a.test", "u5@B.test"},
-		{"u5@B.test", "u4@sub.a.test", "u3@b.test", "u2@A.TEST", "u1@a.test"},
+		{"u1@a.test", "u2@A.TEST", "u3@b.test", "u4@sub.a.test", "u5@B.test", "u6@[IPv6:2001:DB8::1]"},
+		{"u6@[IPv6:2001:DB8::1]", "u5@B.test", "u4@sub.a.test", "u3@b.test", "u2@A.TEST", "u1@a.test"},
 		{"u1@a.test", "u1@a.test", "u3@b.test"},
 	}
 	sl := subsets(c05ListPool, 1)
@@ -269,7 +269,7 @@ func c05Run(c *fw.Ctx) {
 			continue
 		}
 		cas := c05SessCase{Cfg: c05Cfg{true, true, nil, nil, nil, nil, org, 5},
-			Senders: []string{"s@a.test", "s@A.TEST", "s@b.test", "s@sub.a.test", "s@c.test", "s@ab.test", "s@a.org", ""}, Rcpts: []string{"u1@x.test"}, Backend: "mem"}
+			Senders: []string{"s@a.test", "s@A.TEST", "s@b.test", "s@sub.a.test", "s@c.test", "s@ab.test", "s@a.org", "s@[IPv6:2001:DB8::1]", "s@[1.2.3.4]", ""}, Rcpts: []string{"u1@x.test"}, Backend: "mem"}
 		if !c.Begin(func() any { return cas }) {
 			continue
 		}
